@@ -2,7 +2,7 @@
 import itertools
 from .. import model, sweep, refs
 from ..runner import Result, scratch
-from ..bridge import T, build, quiet, monitor, all_nodes, raw_leaves, build_via_brackets, cli_options
+from ..bridge import T, build, quiet, monitor, all_nodes, raw_leaves, build_via_brackets, cli_options, build_any
 
 from trees import transform, transformconst
 from .. import headrules
@@ -73,7 +73,7 @@ def check_negra(mtj, order=None):
                     'detail': '%s on %s' % (detail, model.mt_str(mt.root, mt.toks)),
                     'what': 'negra_mark_heads: ' + kind})
     try:
-        t = build(mt, child_order=order)
+        t = build_any(mt, order)
         r = transform.negra_mark_heads(t)
     except Exception as e:
         bad('exception', '%s: %s' % (type(e).__name__, e))
@@ -266,7 +266,7 @@ def run_chunk(chunk):
         if chunk['kind'] == 'negra':
             for sh, k in sweep.iter_shapes(chunk):
                 for mt in edge_assignments(sh):
-                    vs, nontriv = check_negra(mt.to_json(), None if res.evals % 2 else 'rev')
+                    vs, nontriv = check_negra(mt.to_json(), (None, 'rev', 'export')[res.evals % 3])
                     res.evals += 1
                     res.nontrivial += 1 if nontriv else 0
                     res.outcome((model.mt_str(mt.root, mt.toks), len(vs)))
